@@ -1,5 +1,6 @@
 """TOK engine: text-layer units on arbitrary bounded strings."""
 import os
+import threading
 import re
 
 from . import core, glue
@@ -17,18 +18,32 @@ class TokEngine(glue.GlueEngine):
         self.min_harness_bound = max(self.tb["FILTERED_STR_LEN"] + 12, self.tb["instr_rows"] + 8)
 
     def unit(self, name, cfile, defs=(), replace=(), unwind=110, unwindset=None, checks="full", timeout=None, replay_fn=None,
-             common=("vf_main.c", "libc_models.c"), ignore_props=(), exclude=None, only=None, hunt=None):
+             common=("vf_main.c", "libc_models.c"), ignore_props=(), exclude=None, only=None, hunt=None, isr=None, native_extra=()):
         defs = list(defs) + ["-DVF_MODEL_STRTOUL"]
         uw = {"strncpy.0": 110}
         uw.update(unwindset or {})
         return self.run(name, cfile, defs=defs, unwind=unwind, unwindset=uw, checks=checks, common=common,
                         replace=list(replace), timeout=timeout, replay_fn=replay_fn, ignore_props=ignore_props,
-                        exclude=exclude, only=only, hunt=hunt)
+                        exclude=exclude, only=only, hunt=hunt, isr=isr, native_extra=native_extra)
+
+
+_API_LOCK = threading.Lock()
 
 
 def api_confirm(eng, lines, tag):
     """Run candidate program texts (bytes) through the public API of a natively
     built, sanitized library.  Returns (reproduced, detail)."""
+    with _API_LOCK:
+        exe = _api_driver(eng)
+    for t in lines:
+        args = ["%02x" % b for b in t]
+        rc, out, err, _, to = core.run([exe] + args, timeout=20, limit=False)
+        if to or rc not in (0,) or "AddressSanitizer" in err or "runtime error" in err:
+            return True, "line %r: exit %s timeout=%s %s" % (bytes(t), rc, to, (err or out)[-600:])
+    return False, "no candidate line reproduced natively"
+
+
+def _api_driver(eng):
     drv = os.path.join(eng.wd, "apidrv.c")
     if not os.path.exists(drv):
         with open(drv, "w") as f:
@@ -56,9 +71,4 @@ int main(int argc, char **argv) {
     exe = os.path.join(eng.wd, "apidrv")
     if not os.path.exists(exe):
         core.build_native(eng.wd, "apidrv", [drv] + core.repo_sources(), sanitize=True)
-    for t in lines:
-        args = ["%02x" % b for b in t]
-        rc, out, err, _, to = core.run([exe] + args, timeout=20, limit=False)
-        if to or rc not in (0,) or "AddressSanitizer" in err or "runtime error" in err:
-            return True, "line %r: exit %s timeout=%s %s" % (bytes(t), rc, to, (err or out)[-600:])
-    return False, "no candidate line reproduced natively"
+    return exe
